@@ -5,6 +5,7 @@ observationally pure — after any history a lookup returns what it returns on t
 instantiated with the glyph table read from a preloaded face, predicts every GlyphCache::glyph answer of random lookup histories
 on lazy and preloaded faces; (3) the property on the API: a probe gr_make_seg (+ face report) after a random history of other
 calls on the same face and fonts must equal the same probe on a freshly made face, and the face report before = after."""
+import os
 import vlib
 from props import shapegen as S, c16, apiseq
 
@@ -27,6 +28,12 @@ def safe_history(rng, font, n):
             continue
         ops.append(o)
     return ops
+
+
+def K_tables(data):
+    import struct
+    n = struct.unpack('>H', data[4:6])[0]
+    return {data[12 + 16 * i:16 + 16 * i]: struct.unpack('>II', data[20 + 16 * i:28 + 16 * i]) for i in range(n)}
 
 
 def run(chk):
@@ -68,8 +75,77 @@ def run(chk):
         cases.append('r%d api %s %d %s - %s' % (k, font, opts, src, ' '.join(pre + ['info'] + sup + [probe] + sup + ['info'])))
         cases.append('h%d api %s %d %s - %s' % (k, font, opts, src, ' '.join(pre + ['info'] + sup + hist + [probe] + sup + ['info'])))
         meta.append((font, opts, len(hist)))
+    # warm-cache family: the repository's own test lines on a fresh lazily loaded face, and again after every glyph of the font has been
+    # loaded by shaping private-use characters that an added cmap group maps to glyph 0, 1, 2, ... (what the face has loaded so far is
+    # the one piece of state that shaping can leave behind)
+    import struct, shutil
+    from props import c10, cmapgen
+    wdir = os.path.join(vlib.BUILD, 'fuzzfonts', 'c08w-%s-%d' % (chk.tier, chk.seed))
+    shutil.rmtree(wdir, ignore_errors=True); os.makedirs(wdir)
+    wcases, wmeta = [], []
+    for font in (S.FONTS if thorough else [f for f in S.FONTS if f.startswith('Awami')] + ['Padauk.ttf', 'Scheherazadegr.ttf']):
+        data = open(os.path.join(vlib.REPO, 'tests/fonts', font), 'rb').read()
+        try:
+            tb = K_tables(data)
+            co, cl = tb[b'cmap']; cm = data[co:co + cl]
+            nrec = struct.unpack('>H', cm[2:4])[0]
+            f4 = None
+            for r in range(nrec):
+                pid, eid, off = struct.unpack('>HHI', cm[4 + 8 * r:12 + 8 * r])
+                if (pid, eid) in ((3, 1), (0, 3)) and struct.unpack('>H', cm[off:off + 2])[0] == 4:
+                    f4 = cm[off:off + struct.unpack('>H', cm[off + 2:off + 4])[0]]; break
+            mo, _ = tb[b'maxp']; nglyph = struct.unpack('>H', data[mo + 4:mo + 6])[0]
+        except (KeyError, struct.error):
+            continue
+        if f4 is None or nglyph < 2:
+            continue
+        vf = os.path.join(wdir, 'w_' + font)
+        open(vf, 'wb').write(c10.with_cmap(data, cmapgen.cmap_table([(3, 1, f4), (3, 10, cmapgen.fmt12([(0xF0000, 0xF0000 + nglyph - 1, 0)]))])))
+        _, lines, _ = S.seeds(vlib.REPO, font)
+        if not lines:
+            continue
+        take = lines if (font.startswith('Awami') or len(lines) <= 120) else rng.sample(lines, 120)
+        rtl = 1 if font.startswith(('Awami', 'Schehera')) else 0
+        warm = ['seg:1:32:%d:-:-:%s' % (rtl, ''.join('%08x' % (0xF0000 + g) for g in range(b, min(b + 64, nglyph)))) for b in range(0, nglyph, 64)]
+        for b in range(0, len(take), 16):
+            probes = ['seg:2:32:%d:-:-:%s' % (rtl, ''.join('%08x' % c for c in t[:48])) for t in take[b:b + 16]]
+            for src in (('cb',) if not thorough else ('cb', 'file')):
+                wcases.append('wr%d api %s 0 %s - %s' % (len(wcases), vf, src, ' '.join(probes)))
+                wcases.append('wh%d api %s 0 %s - %s' % (len(wcases), vf, src, ' '.join(warm + probes)))
+                wmeta.append((font, len(probes)))
+    _, wl, _ = vlib.run_pair(None, hexe, wcases, timeout=3000)
+    nwarm = 0
+    for k, (font, npr) in enumerate(wmeta):
+        ref, his = wl[2 * k], wl[2 * k + 1]
+        rc, hc = wcases[2 * k], wcases[2 * k + 1]
+        bad = False
+        for c, l in ((rc, ref), (hc, his)):
+            if l is None:
+                chk.tie_break('harness', 'no result line', c[:300]); bad = True
+            elif 'ABORT' in l.split()[1:3]:
+                chk.violation('c08:warm-abort:%s' % font, 'shaping on a face whose glyphs were all loaded through private-use characters aborted: %s' % l[:300], dict(cases=[c], got=[l[:800]], font_gz_b64=c10.fontblob(c.split()[2]))); bad = True
+        if bad:
+            continue
+        r1, r2 = apiseq.results(ref), apiseq.results(his)
+        if not r1 or not r2 or r1[0] != 'face=ok' or r2[0] != 'face=ok':
+            continue
+        pr = [p for p in r1[1] if p.startswith('seg=')]; ph = [p for p in r2[1] if p.startswith('seg=')][-npr:]
+        nwarm += len(pr)
+        for j, (a, b) in enumerate(zip(pr, ph)):
+            if a != b:
+                probe = rc.split()[6 + j]
+                chk.violation('c08:warm:%s:%s' % (font, probe[-64:]), 'the same gr_make_seg call returns a different segment once the face has loaded other glyphs (fresh face vs. after shaping every glyph through an added cmap group)',
+                              dict(cases=[' '.join(rc.split()[:6] + [probe]), ' '.join(hc.split()[:6] + [o for o in hc.split()[6:] if o.startswith('seg:1:')] + [probe])], got=[a[:1500], b[:1500]], font_gz_b64=c10.fontblob(rc.split()[2])))
+                break
+        classes_w = (font, 'warm', npr)
+        wmeta[k] = wmeta[k] + (classes_w,)
+    shutil.rmtree(wdir, ignore_errors=True)
     _, il, _ = vlib.run_pair(None, hexe, cases, timeout=3000)
     classes, dist = set(), {}
+    for wm in wmeta:
+        if len(wm) > 2:
+            classes.add(wm[2])
+    dist['warm-cache probes'] = nwarm
     for k, (font, opts, nh) in enumerate(meta):
         ref, his = il[2 * k], il[2 * k + 1]
         rc, hc = cases[2 * k], cases[2 * k + 1]
@@ -104,6 +180,13 @@ def replay(chk, obj):
     cs = obj.get('replay', {}).get('cases') or [c for c in [(obj.get('broken') or [{}])[-1].get('case')] if c]
     if not cs:
         print('no case'); return 1
+    blob = obj.get('replay', {}).get('font_gz_b64')
+    if blob:
+        import base64, zlib
+        tmp = os.path.join(vlib.BUILD, 'fuzzfonts', 'replay'); os.makedirs(tmp, exist_ok=True)
+        fp = os.path.join(tmp, 'replay.ttf')
+        open(fp, 'wb').write(zlib.decompress(base64.b64decode(blob)))
+        cs = [' '.join(c.split()[:2] + [fp] + c.split()[3:]) for c in cs]
     hexe = apiseq.build('asan')
     _, il, _ = vlib.run_pair(None, hexe, cs, shards=1)
     for c, l in zip(cs, il):
